@@ -152,6 +152,8 @@ class FSA:
 
     def _build_in_dict(self):
         in_dict = defaultdict(dict)
+        for v in self._out_dict:
+            in_dict[v] = {}
         for v, neighbors_out in self._out_dict.items():
             for w, labels in neighbors_out.items():
                 in_dict[w][v] = list(labels)
